@@ -1120,6 +1120,32 @@ def feature_files() -> List[Feature]:
              "</DIAG-LAYER-CONTAINER>" + TAIL)
     F.append(("two-containers-inheritance", "EcuVariantRaw",
               [("a_child.odx-d", child), ("z_parent.odx-d", mini_container("z_parent"))], {}))
+    # -- LINKED-DTC-DOPS across documents, two levels deep: A (first file) links B (second file)
+    # which links C; what A inherits must not depend on the order of the files
+    def dtc_dop(did: str, name: str, dtcs: List[Tuple[str, int]], linked: str = "") -> str:
+        x = (f'<DTC-DOP ID="{did}"><SHORT-NAME>{name}</SHORT-NAME>' + dct_std("A_UINT32", 24) +
+             '<PHYSICAL-TYPE BASE-DATA-TYPE="A_UINT32"/>' + IDENT + "<DTCS>")
+        for n, code in dtcs:
+            x += (f'<DTC ID="{did}.{n}"><SHORT-NAME>{n}</SHORT-NAME><TROUBLE-CODE>{code}</TROUBLE-CODE>'
+                  f"<TEXT>{n}</TEXT></DTC>")
+        x += "</DTCS>"
+        if linked:
+            x += f"<LINKED-DTC-DOPS><LINKED-DTC-DOP>{linked}</LINKED-DTC-DOP></LINKED-DTC-DOPS>"
+        return x + "</DTC-DOP>"
+    c, r, p = _svc_with_req(L, "dtc", 38, param("VALUE", "code", f'<DOP-REF ID-REF="{L}.DOP.dtcA"/>', 1))
+    first = mini_container("a_first", {"DTC-DOPS": dtc_dop(
+        f"{L}.DOP.dtcA", "dtcA", [("A1", 17)],
+        '<DTC-DOP-REF ID-REF="LB.DOP.dtcB" DOCREF="z_second" DOCTYPE="CONTAINER"/>')},
+        comms=c, requests=r, pos=p)
+    second = (HEAD + '<DIAG-LAYER-CONTAINER ID="DLC.z_second"><SHORT-NAME>z_second</SHORT-NAME>'
+              '<ECU-SHARED-DATAS><ECU-SHARED-DATA ID="LB"><SHORT-NAME>z_second_lib</SHORT-NAME>'
+              "<DIAG-DATA-DICTIONARY-SPEC><DTC-DOPS>" +
+              dtc_dop("LB.DOP.dtcB", "dtcB", [("B1", 34)], '<DTC-DOP-REF ID-REF="LB.DOP.dtcC"/>') +
+              dtc_dop("LB.DOP.dtcC", "dtcC", [("C1", 51), ("C2", 68)]) +
+              "</DTC-DOPS></DIAG-DATA-DICTIONARY-SPEC></ECU-SHARED-DATA></ECU-SHARED-DATAS>"
+              "</DIAG-LAYER-CONTAINER>" + TAIL)
+    F.append(("linked-dtc-dops-two-files", "DtcDop",
+              [("a_first.odx-d", first), ("z_second.odx-d", second)], {}))
     # -- elements that are present but empty: whatever the parser makes of them (an empty string
     # for child elements read with findtext) has to survive the round trip
     tt_empty = dop(f"{L}.DOP.tte", "tt_empty", compu("TEXTTABLE", scales(
